@@ -20,6 +20,10 @@ def addr_enc(a, var):
     def f(name):
         return T.adt_field(p, name) if p[0] == 'adt' else ('field', p, name)
     if var in ('IPv4', 'IPv6'):
+        for port in ('source_port', 'destination_port'):
+            if f(port)[0] in ('field', 'vfield', 'param'):
+                T.TYPES.setdefault(f(port), 'u16')
+                T.NUMERIC[f(port)] = True
         n = 4 if var == 'IPv4' else 16
         return T.mk_concat([octets(f('source_address'), n), octets(f('destination_address'), n),
                             T.mk_tobytes('tobe', 2, f('source_port')), T.mk_tobytes('tobe', 2, f('destination_port'))])
